@@ -13,7 +13,23 @@ from common import canon_hash
 ID = "C20"
 SECTIONS = ["settings"]
 LEAN_MODULES = ["QExPy.Props.C20"]
-THEOREMS = ["QExPy.C20_atomic", "QExPy.C20_one_default"]
+THEOREMS = ["QExPy.C20_valid_print_style",
+            "QExPy.C20_valid_unit_style",
+            "QExPy.C20_valid_error_method",
+            "QExPy.C20_valid_int",
+            "QExPy.C20_valid_plot",
+            "QExPy.C20_atomic",
+            "QExPy.C20_frame",
+            "QExPy.C20_stored_int",
+            "QExPy.C20_one_default",
+            "QExPy.C20_reset_history",
+            "QExPy.C20_wf_init",
+            "QExPy.C20_wf_step",
+            "QExPy.C20_wf_run",
+            "QExPy.C20_temp_reject",
+            "QExPy.C20_temp_restored",
+            "QExPy.C20_temp_size_restored",
+            "QExPy.C20_temp_nested"]
 RULE = ("programs over the q.set_* functions (and the same setters through attributes of "
         "q.get_settings()), reset_default_configuration, reads and use_mc_sample_size wrappers "
         "(returning / raising / nested bodies that themselves issue requests), arguments from the "
